@@ -703,6 +703,35 @@ pub fn finalize_with_monitors(w: &mut World, actor: &str, psbt: &mut Psbt, v: u6
     } else {
         w.stats.finalize_ok += 1;
     }
+    // C02 through the finalizer: the malleable finalizers use the malleable satisfier over exactly the
+    // PSBT's contents; if a standard spend exists from those contents they must not report the input
+    // as unsatisfiable. Only for PSBTs the library's own descriptor updater filled in, all UTXOs
+    // present, honest messages.
+    if w.mon.on("C02") && !w.mon.corruption && matches!(v % 6, 1 | 4) && !w.coord.crash_requested {
+        for i in 0..n {
+            // (the finalizer re-reads the script from its bytes under the context's rules: only
+            // descriptors that pass them are covered)
+            if !w.env.inputs[i].sane || w.env.inputs[i].foreign || was_final[i] || is_final(&psbt.inputs[i]) || !failed.contains(&i) {
+                continue;
+            }
+            let complete = before.inputs.iter().all(|inp| inp.witness_utxo.is_some() || inp.non_witness_utxo.is_some());
+            if !complete {
+                continue;
+            }
+            if crate::mon_ref::ref_exists_std(w, &before, i) == Some(true) {
+                let cls = format!("L2-finalize:{:?}:{}", w.env.inputs[i].kind, how.trim_end_matches('*'));
+                raise_class(
+                    w,
+                    "C02",
+                    "L2-finalize",
+                    cls,
+                    format!("{} reports input {} as not finalisable although a standard spend exists from the signatures, preimages and locks in the PSBT (R3, accepted by R1): {}", how, i, w.env.inputs[i].spec.text),
+                    actor,
+                );
+                return false;
+            }
+        }
+    }
     if on {
         for i in 0..n {
             let now_final = is_final(&psbt.inputs[i]);
